@@ -80,6 +80,11 @@ type tparseOut struct {
 	In  dynJ   `json:"in"`
 	Res string `json:"res"`
 }
+type oddOut struct {
+	In dynJ   `json:"in"`
+	P  string `json:"p"`
+	PG string `json:"pg"`
+}
 type histEv struct {
 	What string `json:"what"`
 	I    int    `json:"i"`
@@ -92,6 +97,7 @@ type enumOut struct {
 	StrValues  []string    `json:"strvalues"`
 	Probes     []probeOut  `json:"probes"`
 	Parses     []parseOut  `json:"parses"`
+	Odd        []oddOut    `json:"odd,omitempty"`
 	Hist       []histEv    `json:"hist,omitempty"`
 	Values2    []string    `json:"values2"`
 	StrValues2 []string    `json:"strvalues2"`
